@@ -63,15 +63,26 @@ Proof. vm_compute. reflexivity. Qed.
 Print Assumptions units_table_complete.
 
 (* widths and precisions the formats are stated to have (AMBER crd F8.3, PDB 8.3 / CRYST1 9.3 7.2, gro
-   precision+5, rst7 F12.7, xtc precision 1000): a change of any of them in /repo breaks this obligation *)
+   precision+5, rst7 F12.7): a change of any of them in /repo breaks this obligation *)
 Theorem format_standards :
   (mdcrd_w, mdcrd_p, mdcrd_per_line, mdcrd_rw, mdcrd_box_w, mdcrd_box_p) = (8, 3, 10, 8, 8, 3)%nat /\
   (pdb_w, pdb_p, f83_cut, cryst_len_w, cryst_len_p, cryst_ang_w, cryst_ang_p) = (8, 3, 8, 9, 3, 7, 2)%nat /\
   (gro_extra, gro_box_w, gro_box_p, gro_coord_col, xyz_w, xyz_p, lammps_w, lammps_p, rst7_w, rst7_p)
     = (5, 10, 5, 20, 8, 3, 8, 3, 12, 7)%nat /\
-  (xtc_prec, xtc_firstidx, xtc_raw_max_atoms, ang_per_nm) = (1000, 9, 9, 10).
+  ang_per_nm = 10.
 Proof. repeat split. Qed.
 Print Assumptions format_standards.
+
+(* the constants of the XTC format found in /repo (magicints[] of xdrfile.c, FIRSTIDX, the raw-float atom limit,
+   MAGIC of xdrfile_xtc.c, the precision xtc.pyx writes with) are those of the format standard the Gallina
+   decoder/encoder are written with: a table that differs in one entry round-trips inside mdtraj but is no
+   longer XTC -- it breaks this obligation (and the decoder, which keeps the standard table, on files that use
+   the entry) *)
+Theorem xtc_format_standard :
+  src_xtc_magicints = xtc_magicints /\ src_xtc_firstidx = xtc_firstidx /\ src_xtc_prec = xtc_prec /\
+  src_xtc_raw_max_atoms = xtc_raw_max_atoms /\ src_xtc_magic = xtc_magic /\ lastidx = 73.
+Proof. repeat split. Qed.
+Print Assumptions xtc_format_standard.
 
 (* ---------------------------------------------------------------- PDB *)
 (* _format_83: always 8 characters; the reader gets the sign and the digits that survive the cut
